@@ -13,9 +13,11 @@ ANCHORS = ["src/haiway/context/metrics.py", "src/haiway/context/access.py"]
 RULE = ("case = scope forest of <=5 scopes (sync/async blocks, sync/async/no completion callback) spread over the creating "
         "task, ctx.spawn tasks and plain asyncio tasks, plus one linearisation of construct/enter/leave/task-end/clock events "
         "(a child is constructed while its parent's body runs or from a task that inherited the parent's context; parents may "
-        "be left, and may have completed, before the child is constructed or left); quick: corpus + ~450 sampled "
-        "linearisations + degenerate stream (held scope objects entered late or never); thorough: every linearisation of every "
-        "tree shape <=4 scopes x task placement (capped per shape) + 16x sampling with 5 scopes; non-trivial = >=2 scopes with "
+        "be left, and may have completed, before the child is constructed or left); quick: corpus + every linearisation of every "
+        "forest shape x task placement with <=3 scopes + 6 random linearisations per shape with 4 + ~6500 sampled event sequences "
+        "(a quarter from the degenerate stream: held scope objects entered late or never); thorough: every linearisation with <=4 "
+        "scopes, 30 random linearisations for each of the 1944 shape x placement combinations with 5 scopes, 40000 sampled "
+        "sequences; non-trivial = >=2 scopes with "
         "callbacks, >=1 nesting edge, and some scope left before a scope nested in it was left or constructed; distinct = by case text")
 TRUSTED = ["asyncio Future done-callbacks / run_coroutine_threadsafe deliver by quiescence (harness/vloop.py)",
            "asyncio.TaskGroup join semantics as modelled in Haiway/Model/ScopeRun.lean (exit waits for ctx.spawn members)",
@@ -163,163 +165,136 @@ def corpus():
     return [mc.normalize(c) for c in cs]
 
 
-KINDS = ["s", "a"]
-CBS = ["s", "a", "s", "a", "n"]
-
-
-def _open_tok(rng, t, held=False):
-    return f"{t}:{'m' if held else 'o'}:{rng.choice(KINDS)}:{rng.choice(CBS)}"
+KINDS = mc.KINDS
+CBS = mc.CBS
 
 
 def sample(rng, max_scopes: int, degenerate: bool) -> str:
-    """One random linearisation: at each step pick an enabled event uniformly-ish, biased towards building
-    a tree first and towards leaving parents early."""
-    r = mc.Replay()
-    toks: list[str] = []
-    nsc = 0
-    steps = 0
-    while steps < 60:
-        steps += 1
-        opts: list[tuple[float, str]] = []
-        live = [t for t, tk in enumerate(r.tasks) if tk.alive and not tk.blocked]
-        if not live:
-            break
-        for t in live:
-            tk = r.tasks[t]
-            if nsc < max_scopes:
-                opts.append((3.0, _open_tok(rng, t)))
-                if degenerate:
-                    opts.append((1.2, _open_tok(rng, t, held=True)))
-            if tk.pending is not None:
-                opts.append((1.5, f"{t}:n"))
-            if tk.frames:
-                sid = tk.frames[-1]
-                blocked_would = r.scopes[sid].is_async and r.live_members(sid)
-                opts.append((2.0, f"{t}:x"))
-                if not blocked_would:
-                    opts.append((0.5, f"{t}:X"))
-            else:
-                opts.append((0.8 if nsc < max_scopes else 3.0, f"{t}:e"))
-            if len(r.tasks) < 4 and r.cur(t) is not None:
-                g = r.group(t)
-                if g is None or r.scopes[g].ev_left is None:
-                    opts.append((1.0, f"{t}:s"))
-                opts.append((1.4, f"{t}:c"))
-        opts.append((0.6, f"+{rng.randint(1, 3)}"))
-        tok = rng.choices([o[1] for o in opts], weights=[o[0] for o in opts])[0]
-        ev = mc.parse_tok(tok)
-        r.step(ev)
-        if not r.ok:
-            return mc.normalize(" ".join(toks))
-        toks.append(tok)
-        if ev.kind in ("open", "make"):
-            nsc += 1
-        if nsc >= max_scopes and rng.random() < 0.05:
-            break
-    return mc.normalize(" ".join(toks))
+    return mc.sample_events(rng, max_scopes, degenerate)
 
 
-def enumerate_shapes(max_scopes: int, cap_per_shape: int, rng):
-    """Exhaustive part of the thorough tier: every forest shape (parent vector) with <= max_scopes scopes, every
-    assignment of {same task, spawned task, plain task} to the non-root scopes, every linearisation of
-    construct/leave (construct in index order; a scope is constructed after its parent and, in the parent's own
-    task, only as the innermost block)."""
-    for n in range(1, max_scopes + 1):
-        for parents in itertools.product(*[[None] + list(range(i)) for i in range(n)]):
-            if parents[0] is not None:
-                continue
-            for places in itertools.product("tsc", repeat=n - 1):
-                yield from _linearisations(parents, ("t",) + places, cap_per_shape, rng)
+def shapes(n: int):
+    """every forest shape with n scopes (parent vector, scope 0 is a root) x placement of each non-root scope:
+    t = in its parent's task, s = in a ctx.spawn task, c = in a plain asyncio task created from the parent's body"""
+    for parents in itertools.product(*[[None] + list(range(i)) for i in range(n)]):
+        if parents[0] is not None:
+            continue
+        for places in itertools.product("tsc", repeat=n - 1):
+            yield parents, ("t",) + places
 
 
-def _linearisations(parents, places, cap, rng):
+def _choices(r: mc.Replay, made: int, task_of: dict, parents, places):
+    """enabled next events of a linearisation: construct+enter the next scope (index order; in its parent's own
+    task only as the innermost block while the parent's body runs, in a child task any time after the task was
+    created from the parent's body - also after the parent was left), or leave an innermost open block"""
+    n = len(parents)
+    out = []
+    if made < n:
+        i, p, place = made, parents[made], places[made]
+        if p is None:
+            if not r.tasks[0].frames and r.can_act(0):
+                out.append(("open", 0))
+        else:
+            pt = task_of[p]
+            if place == "t":
+                if r.can_act(pt) and r.tasks[pt].frames and r.tasks[pt].frames[-1] == p:
+                    out.append(("open", pt))
+            elif ("task", i) not in task_of:
+                if r.can_act(pt) and r.tasks[pt].frames and r.tasks[pt].frames[-1] == p:
+                    g = r.group(pt)
+                    if place == "c" or g is None or r.scopes[g].ev_left is None:
+                        out.append(("spawn", pt))
+            elif r.can_act(task_of[("task", i)]):
+                out.append(("open", task_of[("task", i)]))
+    for t, tk in enumerate(r.tasks):
+        if tk.alive and not tk.blocked and tk.frames:
+            out.append(("exit", t))
+    return out
+
+
+def _apply(r: mc.Replay, ch, made: int, task_of: dict, parents, places, depth: int):
+    task_of = dict(task_of)
+    if ch[0] == "open":
+        kind = "a" if (made + len(parents)) % 2 == 0 else "s"
+        tok = f"{ch[1]}:o:{kind}:{'sa'[(made + depth) % 2]}"
+        task_of[made] = ch[1]
+        made += 1
+    elif ch[0] == "spawn":
+        tok = f"{ch[1]}:{places[made]}"
+        task_of[("task", made)] = len(r.tasks)
+    else:
+        tok = f"{ch[1]}:x"
+    r2 = r.clone()
+    r2.step(mc.parse_tok(tok))
+    return r2, tok, made, task_of
+
+
+def all_linearisations(parents, places):
     n = len(parents)
     results = []
 
-    def rec(r: mc.Replay, toks, made, task_of, depth):
-        if len(results) >= cap * 4:
-            return
+    def rec(r, toks, made, task_of, depth):
         if made == n and all(sc.ev_left is not None for sc in r.scopes):
             results.append(" ".join(toks))
             return
-        # choices: construct the next scope, or leave some innermost open block
-        choices = []
-        if made < n:
-            i = made
-            p = parents[i]
-            place = places[i]
-            if p is None:
-                # a further root: task 0, only outside every block
-                if not r.tasks[0].frames and r.tasks[0].alive and not r.tasks[0].blocked:
-                    choices.append(("open", 0, None))
-            else:
-                pt = task_of[p]
-                if place == "t":
-                    # in the parent's own task, as the innermost block, while the parent's body runs
-                    if r.can_act(pt) and r.tasks[pt].frames and r.tasks[pt].frames[-1] == p:
-                        choices.append(("open", pt, None))
-                else:
-                    # in a new task created from the parent's body; the task may construct the scope later
-                    key = ("task", i)
-                    if key not in task_of:
-                        if r.can_act(pt) and r.tasks[pt].frames and r.tasks[pt].frames[-1] == p:
-                            g = r.group(pt)
-                            if place == "c" or g is None or r.scopes[g].ev_left is None:
-                                choices.append(("spawn", pt, place))
-                    else:
-                        ct = task_of[key]
-                        if r.can_act(ct):
-                            choices.append(("open", ct, None))
-        for t, tk in enumerate(r.tasks):
-            if tk.alive and not tk.blocked and tk.frames:
-                choices.append(("exit", t, None))
-        for ch in choices:
-            r2 = _clone(r)
-            toks2 = list(toks)
-            task_of2 = dict(task_of)
-            made2 = made
-            if ch[0] == "open":
-                i = made
-                kind = "a" if (i + len(parents)) % 2 == 0 else "s"
-                cb = "sa"[(i + depth) % 2]
-                tok = f"{ch[1]}:o:{kind}:{cb}"
-                task_of2[i] = ch[1]
-                made2 += 1
-            elif ch[0] == "spawn":
-                tok = f"{ch[1]}:{ch[2]}"
-                task_of2[("task", made)] = len(r.tasks)
-            else:
-                tok = f"{ch[1]}:x"
-            r2.step(mc.parse_tok(tok))
+        for ch in _choices(r, made, task_of, parents, places):
+            r2, tok, made2, task_of2 = _apply(r, ch, made, task_of, parents, places, depth)
             if r2.ok:
-                rec(r2, toks2 + [tok], made2, task_of2, depth + 1)
+                rec(r2, toks + [tok], made2, task_of2, depth + 1)
 
     rec(mc.Replay(), [], 0, {}, 0)
-    if len(results) > cap:
-        results = rng.sample(results, cap)
-    for c in results:
-        nc = mc.normalize(c)
-        if nc:
-            yield nc
+    return results
 
 
-def _clone(r: mc.Replay) -> mc.Replay:
-    return r.clone()
+def random_linearisation(rng, parents, places):
+    n = len(parents)
+    r, toks, made, task_of, depth = mc.Replay(), [], 0, {}, 0
+    while not (made == n and all(sc.ev_left is not None for sc in r.scopes)):
+        chs = _choices(r, made, task_of, parents, places)
+        if not chs:
+            return None
+        r, tok, made, task_of = _apply(r, rng.choice(chs), made, task_of, parents, places, depth)
+        if not r.ok:
+            return None
+        toks.append(tok)
+        depth += 1
+    return " ".join(toks)
+
+
+def enumerate_shapes(max_scopes: int):
+    """every linearisation of every shape x placement with <= max_scopes scopes"""
+    for n in range(1, max_scopes + 1):
+        for parents, places in shapes(n):
+            for c in all_linearisations(parents, places):
+                nc = mc.normalize(c)
+                if nc:
+                    yield nc
+
+
+def sample_shapes(rng, n: int, per_shape: int):
+    for parents, places in shapes(n):
+        for _ in range(per_shape):
+            c = random_linearisation(rng, parents, places)
+            nc = mc.normalize(c) if c else None
+            if nc:
+                yield nc
 
 
 def generate(rng, tier):
     if tier == "quick":
-        for _ in range(330):
+        yield from enumerate_shapes(3)
+        yield from sample_shapes(rng, 4, 6)
+        for _ in range(5000):
             c = sample(rng, rng.randint(2, 5), False)
             if c:
                 yield c
-        for _ in range(120):
+        for _ in range(1500):
             c = sample(rng, rng.randint(2, 4), True)
             if c:
                 yield c
-        yield from enumerate_shapes(3, 6, rng)
     else:
-        yield from enumerate_shapes(4, 40, rng)
+        yield from enumerate_shapes(4)
+        yield from sample_shapes(rng, 5, 30)
         for _ in range(16 * 2500):
             c = sample(rng, rng.randint(2, 5), rng.random() < 0.25)
             if c:
